@@ -166,3 +166,22 @@ CFG['modelled'] += ('; glue pass: pkg/obitools/obikmersim options.go (option var
 CFG['assumptions'] += ['glue: --max-kmers absent, -1 or >= 0 (below -1 nothing is indexed); effective k-mer size >= 1 for the cli_* count theorems; one reference file']
 CFG['trusted_base'] += ['harness/c19_glue.go (argv construction, FASTA files, brute-force expectation on strings; replicates the NilIBioSequence / --self lines of main.go)',
                         'pkg/obitools/obikmersim/verif_hooks_c19.go (VerifResetOptions: initial values of the option variables)']
+
+# ---- short glue pass: obikmermatch under concurrent use (harness/c19_match.go, `kmc` clause of Driver/C19.lean; seeded C07-m6)
+CFG['rule'] += ('; kmc = obikmermatch under concurrent use: options through the real parser, references through the real CLIReference, ONE index + ONE MakeKmerAlignWorker closure built as '
+    'CLIAlignSequences builds them; alone answers = that worker called on one read after the other (every record kept whole: consensus, qualities, every annotation), result line = the ks match '
+    'line of the distinct reads (recomputed by KmerSim.cliAlignCandidates); then r rounds in a child process, each round (A) the real CLIAlignSequences and (B) the same pipeline '
+    '(IBatchOver -> MakeIWorker x CLIParallelWorkers -> FilterEmpty) on the worker and references of the alone phase, over rep shuffled copies of reads of BOTH strands of the same 2-6 close references, '
+    '8-12 workers (12-16 thorough), batches of 1-6 reads, an observer goroutine reading the references meanwhile; oracles conc.differs (read by read against the alone answers: missing / duplicated record, match id, orientation, '
+    'candidate list, consensus, any annotation), conc.reference-modified (the shared references against their original bytes during and after every round and after the sequential phase), conc.crash, '
+    'cli.match.alone-differs (CLIAlignSequences on one batch vs the worker called read by read); quick 2 cases x 3 rounds x ~250 reads (~1.3 s), thorough 4 cases x 6 rounds x ~600 reads per seed')
+CFG['level_note'] += (' obikmermatch concurrency inventory (kmc): CLIAlignSequences builds ONE KmerMap[Uint128] and ONE closure MakeKmerAlignWorker, handed to MakeIWorker x CLIParallelWorkers (= --max-cpu; '
+    'every worker goroutine calls the same closure on the reads of its batches). SHARED by the workers: the KmerMap (read only after NewKmerMap) and the REFERENCE RECORDS it points to - KmerMatch.Sequences() returns the stored '
+    'pointers, and ReadAlign (Index4mer on the read, FastShiftFourMer / Encode4mer on the reference, seqB.ReverseComplement(false) = fresh copy), BuildQualityConsensus (Sequence(), Qualities() of the reference or of its fresh reverse complement) '
+    'read their bytes without any lock; with --self a reference is also a query record (not exercised by kmc: self = 0); the default quality slice (patch C07-default-qualities-race); the score tables of obialign (_InitDNAScoreMatrix, once). '
+    'PER CALL: the arena (MakePEAlignArena(150,150)), the shift map, the KmerMatch, the k-mer buffer (nil), the result slice, the reverse complement of the reference, the consensus record. '
+    'Tied by the kmc oracle only (observed for the schedules that occur, not proved): no theorem says that the worker leaves the references untouched; the Lean model has immutable references, so a regression that mutates a shared '
+    'reference and restores it (seeded C07-m6: in-place ReverseComplement around BuildQualityConsensus, sequentially exact) is invisible to the model and to every sequential case and is caught by kmc alone '
+    '(validated: conc.differs + conc.reference-modified on both quick cases of seeds 1-3 on the seeded tree, quiet on the unchanged tree). A read whose alone answer is not reproducible (stat kmc:alone-unstable, never seen) is left out of the comparison. '
+    'Not covered: --self under concurrent use, references with qualities (FASTA only), the writer of the command, several reference files.')
+CFG['trusted_base'] += ['harness/c19_match.go (replicates the five lines of CLIAlignSequences that build the index and the worker, to keep a handle on the references; round A runs the real function)']
